@@ -391,6 +391,7 @@ func (in *Interp) runBlocks(fr *frame, b *ssa.BasicBlock) Value {
 	for {
 		var next *ssa.BasicBlock
 		merged := false
+		in.parallelPhis(fr, b)
 		for _, instr := range b.Instrs {
 			in.steps++
 			if in.steps > in.maxSteps {
@@ -469,6 +470,40 @@ func (in *Interp) runBlocks(fr *frame, b *ssa.BasicBlock) Value {
 			fr.phiDone = next
 		}
 		b = next
+	}
+}
+
+// parallelPhis evaluates all phis of block b simultaneously (SSA phis are a parallel
+// assignment: `i, prev = next(i), i` makes one phi the operand of another).
+func (in *Interp) parallelPhis(fr *frame, b *ssa.BasicBlock) {
+	if fr.phiDone == b || fr.prev == nil {
+		return
+	}
+	var phis []*ssa.Phi
+	var vals []Value
+	for _, instr := range b.Instrs {
+		phi, ok := instr.(*ssa.Phi)
+		if !ok {
+			break
+		}
+		found := false
+		for i, p := range b.Preds {
+			if p == fr.prev {
+				phis = append(phis, phi)
+				vals = append(vals, in.eval(fr, phi.Edges[i]))
+				found = true
+				break
+			}
+		}
+		if !found {
+			panic("phi: predecessor not found")
+		}
+	}
+	if len(phis) > 0 {
+		for i, phi := range phis {
+			fr.locals[phi] = vals[i]
+		}
+		fr.phiDone = b
 	}
 }
 
